@@ -125,6 +125,10 @@ func (s *LocalBackend) Metrics() []prometheus.Collector {
 
 func compareFile(f *os.File, data []byte) error {
 	b := make([]byte, min(len(data), 16384))
+	if len(b) == 0 {
+		// Read with an empty buffer returns (0, nil) forever.
+		b = make([]byte, 1)
+	}
 	for {
 		n, err := f.Read(b)
 		if err != nil && err != io.EOF {
